@@ -586,11 +586,32 @@ ALPHABET = [
 ]
 
 
+# merge bookkeeping across deletes: the '<key>_n' features filed by strategy 'merge' stay candidates for later
+# lines with that key, whichever of the features under the key is deleted in between
+MERGE_ALPHABET = [
+    {"op": "update", "recs": [4], "strategy": "merge", "form": "list", "backup": False},
+    {"op": "update", "recs": [2], "strategy": "merge", "form": "generator", "backup": False},
+    {"op": "update", "recs": [3, 4], "strategy": "merge", "form": "list", "backup": False},
+    {"op": "update", "recs": [11], "strategy": "merge", "form": "path", "backup": False},
+    {"op": "update", "recs": [4], "strategy": "create_unique", "form": "list", "backup": False},
+    {"op": "delete", "targets": [2], "as": "id", "backup": False},
+    {"op": "delete", "targets": [3], "as": "feature", "backup": False},
+    {"op": "reopen"},
+]
+
+
 class ExhaustiveLeg(_Base):
     kind = "custom"
     name = "exhaustive"
     budget = {"quick": (16, 0), "thorough": (16, 0)}
     depth = {"quick": 3, "thorough": 4}
+    alphabet = None
+
+    def __init__(self, name="exhaustive", alphabet=None, depth=None):
+        self.name = name
+        self.alphabet = alphabet
+        if depth is not None:
+            self.depth = depth
 
     def run(self, rec, tier, seed, shard, nshards, deadline):
         import time
@@ -599,6 +620,7 @@ class ExhaustiveLeg(_Base):
 
         n = 0
         complete = True
+        ALPHABET = self.alphabet
         for L in range(0, self.depth[tier] + 1):
             for combo in itertools.product(range(len(ALPHABET)), repeat=L):
                 n += 1
@@ -619,7 +641,7 @@ class ExhaustiveLeg(_Base):
                     bad, h = core.raised_failure(e, "history %r" % (list(combo),)), None
                 finally:
                     rec.ctx.cleanup()
-                rec.note_case({"alphabet_indices": list(combo)}, h.nontrivial() if h is not None else True,
+                rec.note_case({"alphabet": self.name, "alphabet_indices": list(combo)}, h.nontrivial() if h is not None else True,
                               sorted("history:" + f for f in h.flags) if h is not None else [])
                 if bad is not None and rec.report(case, bad) is not None:
                     return
@@ -628,7 +650,7 @@ class ExhaustiveLeg(_Base):
         rec.exhaustive = complete
         if not complete:
             rec.skipped_after_budget += 1
-        rec.notes.append("all sequences of length <= %d over the %d-operation alphabet" % (self.depth[tier], len(ALPHABET)))
+        rec.notes.append("all sequences of length <= %d over the %d-operation alphabet %r" % (self.depth[tier], len(ALPHABET), self.name))
 
 
-LEGS = [MachineLeg(), ExhaustiveLeg()]
+LEGS = [MachineLeg(), ExhaustiveLeg("exhaustive", ALPHABET), ExhaustiveLeg("exhaustive-merge", MERGE_ALPHABET)]
